@@ -141,6 +141,64 @@ def registration_order(e0: bool, e1: bool, e2: bool, t0: bool, t1: bool, t2: boo
     return H.done(ok)
 
 
+HIST_SIGS = [((int, None), (object, 0)), ((object, None), (int, 0)), ((int, None), (int, 0)), ((object, None), (object, 0)),
+             ((str, None), (object, 0)), ((int, None),)]        # parameter (type, default or None = required)
+HIST_CALLS = ['f(1)', 'f(1, 2)', "f('s')", "f(1, 's')", 'f(a => 1)', 'f(1, b => 2)']
+HBOX = [(n,) for n in range(8)]
+
+
+def call_history(s0: int, s1: int, s2: int, c1: int, c2: int, p: int) -> bool:
+    """
+    pre: 0 <= s0 < 5 and 0 <= s1 < 5 and 4 <= s2 < 6
+    pre: 0 <= c1 < len(HIST_CALLS) and 0 <= c2 < len(HIST_CALLS) and p in H.P('perms', (0, 5)) and (H.P('c1') is None or c1 == H.P('c1'))
+    post: _
+    """
+    # three REAL overloads with optional parameters in one layer; call c1, then call c2 through the same context: the
+    # outcome of c2 is the one it has on a freshly built family, in every enumeration order (the choice is a function
+    # of the overload set and the call, not of earlier calls)
+    from yaql.language import contexts, exceptions, specs
+    from props import c05_bind as B
+    sig = [HBOX[s0][0], HBOX[s1][0], HBOX[s2][0]]
+    k1, k2, order = HBOX[c1][0], HBOX[c2][0], X.PERMS3[HBOX[p][0]]
+    with H.NoTracing():
+        class OrderedContext(contexts.Context):
+            seq = None
+
+            def get_functions(self, name, predicate=None, use_convention=False):
+                fs, excl = super().get_functions(name, predicate, use_convention)
+                return sorted(fs, key=lambda fd: self.seq.index(fd.meta.get('cid', 0)) if 'cid' in fd.meta else 99), excl
+
+        def family(seq):
+            ctx = OrderedContext(B.ROOT)
+            ctx.seq = list(seq)
+            for i in range(3):
+                ps = HIST_SIGS[sig[i]]
+                if len(ps) == 2:
+                    def payload(a, b=0, _i=i):
+                        return ('ran', _i)
+                else:
+                    def payload(a, _i=i):
+                        return ('ran', _i)
+                fd = specs.get_function_definition(payload, name='f')
+                for pn, (tp, dflt) in zip('ab', ps):
+                    fd.set_parameter(pn, tp, overwrite=True)
+                fd.meta['cid'] = i
+                ctx.register_function(fd)
+            return ctx
+
+        def call(ctx, text):
+            try:
+                return B.ENG(text).evaluate(context=ctx.create_child_context())
+            except (exceptions.NoMatchingFunctionException, exceptions.NoMatchingMethodException,
+                    exceptions.AmbiguousFunctionException, exceptions.AmbiguousMethodException) as e:
+                return type(e).__name__
+        alone = call(family(X.PERMS3[0]), HIST_CALLS[k2])
+        ctx = family(order)
+        call(ctx, HIST_CALLS[k1])
+        ok = call(ctx, HIST_CALLS[k2]) == alone and call(ctx, HIST_CALLS[k1]) == call(family(X.PERMS3[0]), HIST_CALLS[k1])
+    return H.done(ok)
+
+
 TYPES3 = [(int, 'int'), (object, 'object'), (str, 'str')]
 
 
@@ -284,6 +342,13 @@ def conditions(tier, seed):
     out.append({'name': 'real_order', 'func': 'real_order', 'timeout': t,
                 'bounds': '3 real overloads typed int/object/str (symbolic choice) in one layer, all 6 enumeration orders vs identity, '
                           'call positional / by keyword / as method (selectors; each path one concrete family)'})
+    for c1 in range(len(HIST_CALLS)):
+        out.append({'name': 'call_history[first=%s]' % HIST_CALLS[c1], 'func': 'call_history', 'timeout': t,
+                    'param': {'c1': c1, 'perms': (0, 5) if tier == 'quick' else (0, 1, 2, 3, 4, 5)},
+                    'bounds': '3 real overloads (two with signatures chosen among 5, one among 2: typed int/object/str, optional second parameter) in '
+                              'one layer, 2 (thorough: all 6) enumeration orders; the call %s, then one of %d calls through the same context vs the '
+                              'same call on a freshly built family (selectors; each path one concrete history)'
+                              % (HIST_CALLS[c1], len(HIST_CALLS))})
     out.append({'name': 'multi_order', 'func': 'multi_order', 'timeout': t,
                 'bounds': 'MultiContext([A,B]) vs ([B,A]) and both registration orders: overloads typed int/object/str, symbolic '
                           'exclusive flags and function/method/extension kinds; one callable registered as function and as method'})
@@ -301,6 +366,13 @@ def conditions(tier, seed):
 
 def replay(cond, args):
     a = dict(args)
+    if cond['func'] == 'call_history':
+        ok = call_history(**a)
+        return {'reproduced': not ok, 'key': 'C06/call-history',
+                'what': 'three real overloads of f with parameters %r enumerated in order %s: %s followed by %s through the same '
+                        'context does not give what the same call gives on a freshly built family'
+                        % ([[(t.__name__, 'optional' if d is not None else 'required') for t, d in HIST_SIGS[a[k]]]
+                            for k in ('s0', 's1', 's2')], X.PERMS3[a['p']], HIST_CALLS[a['c1']], HIST_CALLS[a['c2']])}
     if cond['func'] in ('real_order', 'multi_order'):
         import props.c06 as me
         ok = getattr(me, cond['func'])(**a)
